@@ -36,3 +36,6 @@ REG.bounded_check("C18.layering", ["C18"], "C18.bounded",
 REG.bounded_check("C08.reference_resolver", ["C08"], "C08.bounded",
                   covers=["Signature.check_call_preprocessed / bind_arguments (as used by overload resolution)", "@overload collection (extensions.py, arg_spec.py)", "union decomposition (_check_param_type_compatibility)"],
                   bound="7 overload sets (3 signatures, arity 1-2, overlapping and shadowed) x all literal argument tuples of length <= 2 over 5 literals; one union-argument and one Any-argument case")
+REG.bounded_check("C20.reference_denotation", ["C20"], "C20.bounded",
+                  covers=["ConditionEvaluator.visit_is_of_type / visit_BoolOp / visit_Compare", "EvaluateVisitor.visit_show_error / _evaluate_ret", "arg_spec._maybe_make_evaluator_sig", "signature argument positions"],
+                  bound="8 evaluator bodies (if / nested if / not / and / or over is_of_type and is_provided, return, show_error) x {literal int, literal str, Union[int, str]} x {y omitted, positional, keyword}")
